@@ -398,7 +398,35 @@ def connection_case(ctx, seed, idx):
                 texts[0], parsed, rule), w, case)
             return
         rules[k] = {'rule': rule, 'id': out.results[0][1], 'active': True, 'text': texts[0]}
+    # a subscription the daemon refuses (rule limit reached, rule text it does not accept): the caller is told so, no rule
+    # exists, and its callback never runs - whatever reaches the connection because of the other rules
+    refused_calls = []
+    if idx % 4 == 1:
+        for j in range(r.choice([1, 2])):
+            rrule = gen_rule(r, conn_level=True) if j else {}
+            kw = rule_kwargs(rrule)
+            if rrule.get('args'):
+                kw['arg'] = list(rrule['args'].items())
+            if rrule.get('arg_paths'):
+                kw['arg_path'] = list(rrule['arg_paths'].items())
+            out = clientfix.Outcome(conn.addMatch(lambda m_, j=j: refused_calls.append((j, state['msg'])), **kw))
+            for m in peer.take():
+                if m.fields.get('member') == 'AddMatch':
+                    serial[0] += 1
+                    peer.send(RM.build(RM.ERROR, serial[0], {'reply_serial': m.serial,
+                                                             'error_name': 'org.freedesktop.DBus.Error.LimitsExceeded'},
+                                       's', ['too many match rules']))
+            ctx.count('evaluations')
+            ctx.count('refused_subscriptions')
+            if out.fired != 1 or out.results[0][0] != 'err':
+                ctx.report('addmatch-call', 'addMatch refused by the daemon completed with %r' % (out.results,),
+                           {'rule': rrule}, case)
+                return
     for mi in range(r.choice([2, 5, 9])):
+        if refused_calls:
+            ctx.report('refused-rule-callback-ran', 'the callback of a subscription the daemon had refused ran %d times' % (
+                len(refused_calls),), {'rules': {k: (v['rule'], v['active']) for k, v in rules.items()}}, case)
+            return
         if r.random() < 0.25:
             live = [k for k, v in rules.items() if v['active']]
             if live:
@@ -445,6 +473,9 @@ def connection_case(ctx, seed, idx):
                                brief(eff), v['rule'], RMATCH.disagreeing_keys(v['rule'], eff)), w, case)
                 return
             ctx.distinct('nontrivial_cases', ('conn', tuple(sorted(v['rule'])), mode, want))
+    if refused_calls:
+        ctx.report('refused-rule-callback-ran', 'the callback of a subscription the daemon had refused ran %d times' % (
+            len(refused_calls),), {'rules': {k: (v['rule'], v['active']) for k, v in rules.items()}}, case)
 
 
 def classify_text(rule, text):
